@@ -220,7 +220,7 @@ def C08_3(ctx, facts):
              and {sym_len(f, lab.cond.a, rb).split("@")[0], sym_len(f, lab.cond.b, rb).split("@")[0]} == {"FILLED", "PREFIX"}]
     ctx.check(bool(exits), "ReadVersion::poll|loop-bound", "the read loop is bounded by filled().len() < HTTP2_PREFIX.len()", "no loop condition comparing filled().len() with the preface length")
     # initial version is Http2; cancelled flag returns Err first
-    new = facts.fn("server::conn::auto::ReadVersion::new")
+    new = facts.unit(facts.fn("server::conn::auto::ReadVersion::new"))
     ok = False
     for (b, i, s) in new.aggregates("server::conn::auto::ReadVersion"):
         r = s["r"]
@@ -250,7 +250,7 @@ def C08_4(ctx, facts):
 
 
 def C08_5(ctx, facts):
-    f = facts.method("rewind::Rewind", "Read", "poll_read")
+    f = facts.unit(facts.method("rewind::Rewind", "Read", "poll_read"))
     ctx.touched(f)
     mins = f.calls("std::cmp::min", "core::cmp::min")
     puts = f.calls("rewind::put_slice")
@@ -331,7 +331,7 @@ def C08_5(ctx, facts):
         ctx.check(ok, "Rewind::poll_read|replay-reports-ready", "a call that replayed prefix bytes returns Ready(..) built on the spot",
                   "a call that replayed prefix bytes can return something other than a literal Ready(..)", c.where())
     # Ready(Ok) after copying; Rewind::new stores inner and Some(prefix)
-    new = facts.fn("rewind::Rewind::new")
+    new = facts.unit(facts.fn("rewind::Rewind::new"))
     for (b, i, s) in new.aggregates("rewind::Rewind"):
         r = s["r"]
         ops = dict(zip(r["fields"], r["ops"]))
@@ -343,7 +343,7 @@ def C08_5(ctx, facts):
 
 
 def C08_6(ctx, facts):
-    f = facts.method("server::conn::auto::UpgradableConnection", "Future", "poll")
+    f = facts.unit(facts.method("server::conn::auto::UpgradableConnection", "Future", "poll"))
     ctx.touched(f)
     serves = [c for c in f.calls() if norm(c.name).endswith("::serve_connection")]
     ctx.floor("UpgradableConnection::poll|serve", len(serves), 2, "hyper serve_connection calls")
